@@ -27,8 +27,14 @@ fn scenario(network: NetID, difficulty: u32, tip910: bool, prev_speed: u128, age
     let coin = |v: u128| CoinDataHeight { coin_data: CoinData { covhash: always_true_covhash(), value: CoinValue(v), denom: Denom::Mel, additional_data: Default::default() }, height: 0.into() };
     vh::insert_coin(&mut st, cid, coin(1000));
     let mut sealed = st.seal(None);
-    for _ in 1..age {
-        sealed = sealed.next_unsealed().seal(None);
+    for i in 1..age {
+        let mut nx = sealed.next_unsealed();
+        if i == 1 {
+            // the speed rises after the coin's creation block: the reward must follow the previous block, not the coin's block
+            let (h, fp, tips, mult) = (vh::height(&nx), vh::fee_pool(&nx), vh::tips(&nx), vh::fee_multiplier(&nx));
+            vh::fabricate(&mut nx, network, h, fp, tips, mult, prev_speed * 3);
+        }
+        sealed = nx.seal(None);
     }
     let state = sealed.next_unsealed();
     let seed_header = sealed.history(0.into()).expect("history[0]");
